@@ -4,10 +4,14 @@ from harness import ll_common as ll
 PROPERTY = "C01"
 STATEFUL = True
 READY = True
-THEOREMS = ["C01.run_sound", "C01.table_wf", "C01.factorize_ok", "C01.parse_valid"]
-RULE = ("one case = one generated grammar (3 generators + malformed stream, 5 token configurations, permuted names), "
-        "constructed with smart_factorization True and False, each followed by every token string up to the tier's "
-        "length; non-trivial = at least one returned tree and at least one ParsingError in the case; distinct by protocol text")
+THEOREMS = ["C01.run_sound", "C01.table_wf", "C01.factorize_ok", "C01.parse_valid", "C01.parse_from_valid", "C01.no_memory"]
+RULE = ("one case = one generated grammar (generators: unbiased / mostly non-left-recursive / shaped incl. 3-4 same-prefix "
+        "alternatives in every order / LL(1)-ish / hidden recursion / DFS shapes / late FIRST-FOLLOW chains / malformed incl. "
+        "reserved names; 1-6 non-terminals with permuted names; 11 token configurations: synonyms, keywords, default / explicit / "
+        "empty skip sets incl. a SPACE-named terminal, COMMENT; start symbol default or explicit), constructed with "
+        "smart_factorization True and False; on EACH parser object: every token string up to the tier's length + sampled "
+        "sentences, then call sequences parse(text, start_symbol_name=X) followed by a plain parse(text), then is_ambiguous() "
+        "again; non-trivial = at least one returned tree and at least one ParsingError in the case; distinct by protocol text")
 TRUSTED = ["re (lexemes are found by the harness with the tokenizer's own pattern)"]
 ASSUMPTIONS = ["hypotheses of C01.parse_valid: the start symbol is one of the keys of `productions` (the constructor accepts "
                "start_symbol_name='E__S00', a helper key of the factorised dictionary; the root of the tree is then a helper "
@@ -26,17 +30,23 @@ def oracle(case, replies):
         op = line.split()[0]
         if op == "g":
             spec, smart = ll.dec_g(line)
-            g, start, ok = ll.user_grammar(spec), spec["start"], rep.startswith("ok")
-        elif op == "p" and ok:
+            g, start, ok = ll.user_grammar(spec), ll.start_of(spec), rep.startswith("ok")
+        elif op in ("p", "ps") and ok:
+            root = start
+            if op == "ps":
+                root = line.split()[1]
+                if root not in g:        # not one of the user's symbols: the property does not speak about it
+                    continue
             if rep.startswith("tree "):
                 try:
                     tree = ll.read_sexp(rep[5:])
                 except Exception as e:
                     return "unreadable-tree: %s" % rep[:80]
                 text = ll.dec_p(line)
-                msg = ll.check_tree(g, start, tree, ll.expected_tokens(case, text))
+                msg = ll.check_tree(g, root, tree, ll.expected_tokens(case, text))
                 if msg:
-                    return "%s (input %r, smart=%s)" % (msg, text, smart)
+                    return "%s (input %r, %s, smart=%s)" % (
+                        msg, text, "start_symbol_name=%r" % root if op == "ps" else "default start symbol", smart)
             elif rep.startswith("crash") or rep == "err AssertionError":
                 return "tree-shape: %s on input %r" % (rep[:80], ll.dec_p(line))
     return None
@@ -67,7 +77,9 @@ LEVEL_TEXT = ("Kernel-checked for ALL grammars, token lists and both smart_facto
               "LLParser.__init__ + parse: a returned tree is rooted at the start symbol, every inner node is one of the user's "
               "productions, leaves are exactly the non-skipped tokens, no helper symbol occurs (C01.parse_valid = soundness of "
               "the backtracking loop C01.run_sound + table well-formedness C01.table_wf + correctness of common-prefix "
-              "factorisation incl. the smart undo C01.factorize_ok). model = code is established by a differential run: "
+              "factorisation incl. the smart undo C01.factorize_ok); the same for parse(text, start_symbol_name=X) "
+              "(C01.parse_from_valid); a parser object has no memory between calls (C01.no_memory: every request except "
+              "construct/reset leaves the parser unchanged). model = code is established by a differential run: "
               "constructor outcome, is_ambiguous() and every raw tree / error class compared on generated grammars x all short "
               "token strings; prods_map, suffix set, table, nullables, FIRST, FOLLOW compared as diagnostics.")
 LEVEL_NOTE = ("Trusted: Lean kernel (axioms propext, Classical.choice, Quot.sound), harness adapter/oracle, sampled "
